@@ -13,13 +13,26 @@ directive @defer(if: Boolean! = true, label: String) on FRAGMENT_SPREAD | INLINE
 directive @stream(if: Boolean! = true, label: String, initialCount: Int! = 0) on FIELD
 directive @experimental_disableErrorPropagation on QUERY | MUTATION | SUBSCRIPTION
 
+interface N1 { s1: String s2: String s3: String i1: Int }
+interface N2 { s1: String s2: String s3: String i1: Int }
+interface N3 { s1: String s2: String s3: String i1: Int }
+union U1 = T1 | X1
+union U2 = T2 | X2
+union U3 = T3 | X3
+type X1 implements N1 { s1: String s2: String s3: String i1: Int n1: String! }
+type X2 implements N2 { s1: String s2: String s3: String i1: Int n1: String! }
+type X3 implements N3 { s1: String s2: String s3: String i1: Int n1: String! }
+
 type Query { s1: String s2: String s3: String n1: String! i1: Int
-  o1: T1 o2: T1! l1: [T1] l2: [T1!] l3: [String] l4: [T1!]! }
-type T1 { s1: String s2: String s3: String n1: String! i1: Int
-  o1: T2 o2: T2! l1: [T2] l2: [T2!] l3: [String] l4: [T2!]! }
-type T2 { s1: String s2: String s3: String n1: String! i1: Int
-  o1: T3 o2: T3! l1: [T3] l2: [T3!] l3: [String] l4: [T3!]! }
-type T3 { s1: String s2: String s3: String n1: String! i1: Int l3: [String] }
+  o1: T1 o2: T1! l1: [T1] l2: [T1!] l3: [String] l4: [T1!]!
+  a1: N1 u1: U1 al: [N1] ul: [U1!] }
+type T1 implements N1 { s1: String s2: String s3: String n1: String! i1: Int
+  o1: T2 o2: T2! l1: [T2] l2: [T2!] l3: [String] l4: [T2!]!
+  a1: N2 u1: U2 al: [N2] ul: [U2!] }
+type T2 implements N2 { s1: String s2: String s3: String n1: String! i1: Int
+  o1: T3 o2: T3! l1: [T3] l2: [T3!] l3: [String] l4: [T3!]!
+  a1: N3 u1: U3 al: [N3] ul: [U3!] }
+type T3 implements N3 { s1: String s2: String s3: String n1: String! i1: Int l3: [String] }
 """
 
 TYPES = ["Query", "T1", "T2", "T3"]
@@ -27,6 +40,58 @@ SCALARS = ["s1", "s2", "s3", "n1", "i1"]
 OBJS = ["o1", "o2"]
 OBJ_LISTS = ["l1", "l2", "l4"]
 SCALAR_LISTS = ["l3"]
+ABSTRACT = ["a1", "u1"]  # interface / union valued
+ABSTRACT_LISTS = ["al", "ul"]
+
+# How abstract values find their runtime type is part of the *data*: an abstract object carries
+#   "$type": "T2" | "X2"            its runtime type
+#   "$rt": "sync" | "async" | "isof"  resolve_type answers directly / through a harness future / is absent
+#                                     (graphql's default resolver then asks is_type_of of every member)
+#   "$isof": "sync" | "async"       how is_type_of answers for this value
+_CURRENT = {"harness": None}
+
+
+def set_harness(h):
+    _CURRENT["harness"] = h
+
+
+def _path_name(info):
+    return ".".join(str(p) for p in info.path.as_list())
+
+
+def _resolve_type(value, info, abstract_type):
+    from graphql.execution.executor import default_type_resolver
+
+    if not isinstance(value, dict) or "$type" not in value:
+        return default_type_resolver(value, info, abstract_type)
+    mode = value.get("$rt", "sync")
+    if mode == "isof":
+        return default_type_resolver({k: v for k, v in value.items() if k != "__typename"} and value, info, abstract_type)
+    if mode == "async" and _CURRENT["harness"] is not None:
+        _, fut = _CURRENT["harness"].new_handle(_path_name(info) + "?type", value["$type"])
+        return fut
+    return value["$type"]
+
+
+def _make_is_type_of(type_name):
+    def is_type_of(value, info):
+        if not isinstance(value, dict) or "$type" not in value:
+            return True
+        answer = value["$type"] == type_name
+        if value.get("$isof", "sync") == "async" and _CURRENT["harness"] is not None:
+            _, fut = _CURRENT["harness"].new_handle(f"{_path_name(info)}?is:{type_name}", answer)
+            return fut
+        return answer
+
+    return is_type_of
+
+
+def _install_type_resolution(sch):
+    for name in ("N1", "N2", "N3", "U1", "U2", "U3"):
+        sch.type_map[name].resolve_type = _resolve_type
+    for name in ("T1", "T2", "T3", "X1", "X2", "X3"):
+        sch.type_map[name].is_type_of = _make_is_type_of(name)
+    return sch
 
 _schema = None
 _ref_schema = None
@@ -37,7 +102,7 @@ def schema():
     if _schema is None:
         from graphql import build_schema
 
-        _schema = build_schema(SDL)
+        _schema = _install_type_resolution(build_schema(SDL))
     return _schema
 
 
@@ -47,8 +112,10 @@ def ref_schema():
     if _ref_schema is None:
         from graphql import build_schema
 
-        _ref_schema = build_schema(
-            "\n".join(ln for ln in SDL.split("\n") if not ln.startswith(("directive @defer", "directive @stream")))
+        _ref_schema = _install_type_resolution(
+            build_schema(
+                "\n".join(ln for ln in SDL.split("\n") if not ln.startswith(("directive @defer", "directive @stream")))
+            )
         )
     return _ref_schema
 
@@ -145,6 +212,11 @@ class QueryGen:
             elif r < 0.63:
                 self.used[level].add("l3")
                 sels.append("l3" + self.stream_dir(pattern + ("l3",)))
+            elif r < 0.72 and level < 3 and depth < 4:
+                f = rng.choice(ABSTRACT + ABSTRACT_LISTS)
+                self.used[level].add(f)
+                sd = self.stream_dir(pattern + (f,)) if f in ABSTRACT_LISTS else ""
+                sels.append(f"{f}{sd} {self.abstract_selset(level + 1, pattern + (f,), depth + 1, f[0] == 'a')}")
             elif r < 0.85:
                 cond = f" on {TYPES[level]}" if rng.random() < 0.3 else ""
                 sels.append(f"...{cond}{self.defer_dir()} {self.selset(level, pattern, depth + 1)}")
@@ -160,6 +232,31 @@ class QueryGen:
                     self.frag_by_level[level].append(name)
                 sels.append(f"...{name}{self.defer_dir()}")
         return "{ " + " ".join(sels) + " }"
+
+
+def _abstract_selset(self, level, pattern, depth, is_interface):
+    """Selections on an interface (N<level>) or union (U<level>) whose members are T<level> and X<level>."""
+    rng = self.rng
+    sels = []
+    if is_interface:
+        for _ in range(rng.randint(0, 2)):
+            sels.append(rng.choice(["s1", "s2", "s3", "i1"]))
+        if rng.random() < 0.35:
+            sels.append(f"...{self.defer_dir()} {{ {rng.choice(['s1', 's2', 's3'])} }}")
+    elif rng.random() < 0.3:
+        sels.append("__typename")
+    if rng.random() < 0.85 or not sels:
+        sels.append(f"... on T{level}{self.defer_dir()} {self.selset(level, pattern, depth + 1)}")
+    if rng.random() < 0.6:
+        inner = " ".join(rng.sample(["s1", "s2", "s3", "n1"], rng.randint(1, 2)))
+        if rng.random() < 0.3:
+            inner += f" ...{self.defer_dir()} {{ {rng.choice(['s1', 's2', 'i1'])} }}"
+        sels.append(f"... on X{level}{self.defer_dir()} {{ {inner} }}")
+    rng.shuffle(sels)
+    return "{ " + " ".join(sels) + " }"
+
+
+QueryGen.abstract_selset = _abstract_selset
 
 
 def gen_query(rng):
@@ -256,9 +353,41 @@ class DataGen:
                 d[f] = self.wrap(v)
             elif f in OBJ_LISTS:
                 d[f] = self.lst(lambda: self.obj(level + 1), nullable_items=(f == "l1"), nullable=(f != "l4"))
+            elif f in ABSTRACT:
+                if self.err():
+                    v = {"$raise": 1}
+                elif self.rng.random() < 0.08:
+                    v = None
+                else:
+                    v = self.abstract_obj(level + 1)
+                d[f] = self.wrap(v)
+            elif f in ABSTRACT_LISTS:
+                d[f] = self.lst(lambda: self.abstract_obj(level + 1), nullable_items=(f == "al"), nullable=True)
             elif f == "l3":
                 d[f] = self.lst(lambda: self.scalar("s1"), nullable_items=True, nullable=True, scalar=True)
         return d
+
+    def abstract_obj(self, level):
+        rng = self.rng
+        if rng.random() < 0.6:
+            v = self.obj(level)
+            v["$type"] = f"T{level}"
+        else:
+            v = {f: self.scalar(f) for f in ("s1", "s2", "s3", "i1", "n1")}
+            v["$type"] = f"X{level}"
+        if self.p_async > 0 and self.n_async < 7:
+            r = rng.random()
+            if r < 0.4:
+                v["$rt"] = "async"
+                self.n_async += 1
+            elif r < 0.55:
+                v["$rt"] = "isof"
+                if rng.random() < 0.6:
+                    v["$isof"] = "async"
+                    self.n_async += 2
+        elif rng.random() < 0.2:
+            v["$rt"] = "isof"
+        return v
 
     def lst(self, mk, nullable_items, nullable, scalar=False):
         rng = self.rng
@@ -320,7 +449,7 @@ def gen_overlap_case(rng):
     independent awaitable gates on the fragments' own fields -- so that an execution group shared by A and B
     can complete while B is not yet announced, in some completion orders and not in others."""
     base = rng.choice([0, 0, 1])  # level of the object that carries A and P
-    f = rng.choice(["o1", "o2", "l1", "l2", "l4"])  # shared object / list-of-objects field
+    f = rng.choice(["o1", "o2", "l1", "l2", "l4", "a1", "a1", "al"])  # shared object / list / interface field
     x, y, z = rng.sample(["s1", "s2", "s3", "i1"], 3)  # leaves one level below
     own = rng.sample(["s1", "s2", "s3", "i1"], 3)  # own fields of A, P and of the mid-level fragment
     labels = iter(["A", "P", "B", "M", "C"])
@@ -354,10 +483,16 @@ def gen_overlap_case(rng):
         return {"$async": v} if rng.random() < p else v
 
     def child():
-        return {x: val(x, 0.35), y: val(y, 0.35), z: val(z, 0.25)}
+        c = {x: val(x, 0.35), y: val(y, 0.35), z: val(z, 0.25)}
+        if f.startswith("a"):
+            c["$type"] = rng.choice([f"T{base + 1}", f"X{base + 1}"])
+            c["$rt"] = rng.choice(["sync", "async", "async", "isof"])
+            if c["$rt"] == "isof":
+                c["$isof"] = rng.choice(["sync", "async"])
+        return c
 
     obj = {own[0]: val(own[0], 0.5), own[1]: val(own[1], 0.8), own[2]: val(own[2], 0.2)}
-    if f.startswith("o"):
+    if f in ("o1", "o2", "a1"):
         obj[f] = child() if rng.random() < 0.8 else {"$async": child()}
     else:
         obj[f] = [child() for _ in range(rng.choice([1, 2]))]
